@@ -138,9 +138,22 @@ struct C19 : Scenario {
   }
   uint64_t state_hash() { uint64_t h = fnvs(1469598103934665603ULL, pop.name); for (size_t i = 0; i < deleted.size(); i++) { char c = (deleted[i] ? 1 : 0) | (vanished[i] ? 2 : 0); h = fnv(h, &c, 1); } return h ^ 0x5bd1e995; }
 
+  bool io_fault = false;
+  void alternatives(World &w, Proc &p, const Req &r, std::vector<Alt> &a) override {
+    if (mode == "popup" || w.ex->bound[BK_FAULT] <= 0 || p.vpid != pid || !greeted) return;
+    // a message file cannot be opened or read (once): the server must not present a shortened message as complete
+    if (r.op == VK_READ) { Ofd *o = w.O(p, r.a[0]); if (o && o->kind == K_FILE) a.push_back({BK_FAULT, ALT_FAIL, EIO}); }
+    if (r.op == VK_OPEN) { std::string pth = r.data.c_str(); if (pth.compare(0, 4, "new/") == 0 || pth.compare(0, 4, "cur/") == 0) { a.push_back({BK_FAULT, ALT_FAIL, EIO}); a.push_back({BK_FAULT, ALT_FAIL, ENFILE}); } }
+  }
   void verify_last(World &w) {
     if (!cur) return;
     std::string got = out->data.substr(outpos); outpos = out->data.size();
+    if (io_fault) {
+      io_fault = false; desync = true; w.counters["replies_after_io_error"]++;
+      bool complete = got.size() >= 5 && got.compare(got.size() - 5, 5, "\r\n.\r\n") == 0 && got.compare(0, 3, "+OK") == 0;
+      if (complete && !matches(got, pending_want, pending_err)) w.soft_violation("C19:shortened-message-after-read-error:" + std::string(cur->line.substr(0, 4)), "maildir " + pop.name + ", session [" + session + "]: a read of the message file failed (injected) and the reply to [" + cur->line + "] is a complete, properly terminated response with different content: [" + esc(got, 200) + "]");
+      return;
+    }
     if (cur->kind == 13 || cur->kind == 14) { if (!got.empty()) w.violation("C19:unsolicited-output", "server wrote [" + esc(got) + "] without a command"); return; }
     // the model was already advanced when the command was sent; expected text was computed then
     if (!matches(got, pending_want, pending_err)) {
@@ -245,6 +258,7 @@ struct C19 : Scenario {
   }
   void after_step(World &w, Proc &p, const Step &st) override {
     (void) w;
+    if (st.injected && st.err && p.vpid == pid) io_fault = true;
     if (mode == "popup" && p.vpid == pid && st.op == VK_WRITE && st.a[0] != 1 && st.kind == K_PIPE_W && st.data) creds += *st.data;
   }
   void popup_end(World &w) {
